@@ -252,3 +252,89 @@ pub fn zfind(req: &Req) -> R<String> {
 	}
 	Ok(format!("z:{}", out.join(",")))
 }
+
+
+/// `seedfind iters=<N> seed=<s> max=<K>`: seeds whose DOCUMENTED Xoshiro256 expansion (four successive SplitMix64 outputs - the published
+/// algorithm, implemented here, not the crate's) has TWO structured state words at once (sparse: <= 16 bits set, dense: >= 48, >= 16 leading
+/// zeros, >= 16 trailing zeros). Found by inversion: a structured word is drawn, the seed that puts it at position k is computed with the
+/// inverse of mix64, and the other three words are looked at; up to K seeds per (position pair, class pair). A guard in a seeding routine that
+/// looks at the quality of two state words is keyed on such seeds (about one seed in 10^8; one in 10^10 for a particular pair).
+pub fn seedfind(req: &Req) -> R<String> {
+	const GAMMA: u64 = 0x9e3779b97f4a7c15;
+	fn mix64(mut z: u64) -> u64 {
+		z = (z ^ (z >> 30)).wrapping_mul(0xbf58476d1ce4e5b9);
+		z = (z ^ (z >> 27)).wrapping_mul(0x94d049bb133111eb);
+		z ^ (z >> 31)
+	}
+	fn unxorshift(y: u64, k: u32) -> u64 {
+		let mut x = y;
+		let mut s = k;
+		while s < 64 {
+			x = y ^ (x >> k);
+			s += k;
+		}
+		x
+	}
+	fn unmix64(mut z: u64) -> u64 {
+		z = unxorshift(z, 31);
+		z = z.wrapping_mul(0x319642b2d24d8ec3);
+		z = unxorshift(z, 27);
+		z = z.wrapping_mul(0x96de1b173f119089);
+		unxorshift(z, 30)
+	}
+	fn class(w: u64) -> Option<usize> {
+		let pc = w.count_ones();
+		if pc <= 16 { Some(0) } else if pc >= 48 { Some(1) } else if w.leading_zeros() >= 16 { Some(2) } else if w.trailing_zeros() >= 16 { Some(3) } else { None }
+	}
+	let iters = req.u64("iters")?;
+	let max = req.usize("max")?;
+	let mut x = req.u64("seed")? | 1;
+	let mut next = move || {
+		x ^= x >> 12;
+		x ^= x << 25;
+		x ^= x >> 27;
+		x.wrapping_mul(0x2545F4914F6CDD1D)
+	};
+	fn extreme(w: u64, c: usize) -> u32 {
+		match c { 0 => 64 - w.count_ones(), 1 => w.count_ones(), 2 => w.leading_zeros(), _ => w.trailing_zeros() }
+	}
+	// per bucket the K MOST EXTREME seeds (a guard may use a tighter threshold than the classes here)
+	let mut buckets = std::collections::BTreeMap::<(usize, usize, usize, usize), Vec<(u32, u64)>>::new();
+	for _ in 0..iters {
+		let r = next();
+		let c0 = (r & 3) as usize;
+		let k0 = ((r >> 2) & 3) as usize;
+		// a structured word of class c0
+		let a = next();
+		let w = match c0 {
+			0 => { let mut v = 0u64; for j in 0..(1 + (r >> 8) % 16) { v |= 1u64 << ((a >> (6 * (j % 10))).wrapping_add(j * 7) % 64); } v }
+			1 => { let mut v = !0u64; for j in 0..(1 + (r >> 8) % 16) { v &= !(1u64 << ((a >> (6 * (j % 10))).wrapping_add(j * 7) % 64)); } v }
+			2 => a >> (16 + (r >> 8) % 32),
+			_ => a << (16 + (r >> 8) % 32),
+		};
+		if class(w) != Some(c0) { continue; }
+		// the seed that makes state word k0 equal to w: word k = mix64(seed + (k+1) * GAMMA)
+		let seed = unmix64(w).wrapping_sub(GAMMA.wrapping_mul(k0 as u64 + 1));
+		debug_assert_eq!(mix64(seed.wrapping_add(GAMMA.wrapping_mul(k0 as u64 + 1))), w);
+		for k1 in 0..4 {
+			if k1 == k0 { continue; }
+			let w1 = mix64(seed.wrapping_add(GAMMA.wrapping_mul(k1 as u64 + 1)));
+			if let Some(c1) = class(w1) {
+				let b = buckets.entry((k0.min(k1), k0.max(k1), if k0 < k1 { c0 } else { c1 }, if k0 < k1 { c1 } else { c0 })).or_default();
+				let score = extreme(w, c0).min(extreme(w1, c1));
+				if !b.iter().any(|e| e.1 == seed) {
+					b.push((score, seed));
+					b.sort_by(|x, y| y.0.cmp(&x.0));
+					b.truncate(max);
+				}
+			}
+		}
+	}
+	let mut out: Vec<String> = Vec::new();
+	for (_, v) in buckets {
+		for (_, sd) in v {
+			out.push(sd.to_string());
+		}
+	}
+	Ok(format!("seeds:{}", out.join(",")))
+}
